@@ -15,6 +15,7 @@ import (
 	"pgregory.net/rapid"
 	"verif/harness/engine"
 	"verif/harness/gen"
+	"verif/harness/pipe"
 	"verif/harness/reg"
 	"verif/harness/sreg"
 	"verif/harness/stub"
@@ -84,7 +85,22 @@ func indProp(ind reg.Ind) engine.AnyProp {
 			}
 			return c
 		},
-		Check: func(c IndCase) engine.Outcome {
+		Check: func(c IndCase) (o engine.Outcome) {
+			// under the goroutine census: calls on a reused instance that never return (a deadlock
+			// that only shows on the second or on overlapping computations) are a violation, not a
+			// stalled shard
+			if verdict, detail := pipe.Call(func() { o = indCheck(ind, c) }); verdict != "ok" {
+				o = engine.Outcome{}
+				o.Failf("%s %v: %d calls on one instance (concurrent=%v) never finished: %s: %s", ind.Name, c.Cfg, len(c.Calls), c.Concurrent, verdict, detail)
+			}
+			return o
+		},
+	}
+}
+
+func indCheck(ind reg.Ind, c IndCase) engine.Outcome {
+	{
+		{
 			var o engine.Outcome
 			fresh := make([][][]float64, len(c.Calls))
 			for i, b := range c.Calls {
@@ -126,7 +142,7 @@ func indProp(ind reg.Ind) engine.AnyProp {
 			o.Add("calls", len(c.Calls))
 			o.Key = fmt.Sprint(c.Cfg, c.Concurrent, callLens(c.Calls), c.Calls[0].Close)
 			return o
-		},
+		}
 	}
 }
 
@@ -209,6 +225,14 @@ func firstByte(s string) byte {
 	return s[0]
 }
 
+func guardedStratCheck(c StratCase) (o engine.Outcome) {
+	if verdict, detail := pipe.Call(func() { o = stratCheck(c) }); verdict != "ok" {
+		o = engine.Outcome{}
+		o.Failf("%s: %d computations on one instance (concurrent=%v) never finished: %s: %s", c.Tree, len(c.Calls), c.Concurrent, verdict, detail)
+	}
+	return o
+}
+
 func stratCheck(c StratCase) engine.Outcome {
 	var o engine.Outcome
 	sns := make([][]*asset.Snapshot, len(c.Calls))
@@ -277,7 +301,7 @@ func baseStratProp(st sreg.Strat) engine.AnyProp {
 		Gen: func(t *rapid.T) StratCase {
 			return genStratCase(t, sreg.Tree{Op: "leaf", Leaf: st.Name, Cfg: st.GenConfig(t)})
 		},
-		Check: stratCheck,
+		Check: guardedStratCheck,
 	}
 }
 
@@ -286,7 +310,7 @@ func treeProp() engine.AnyProp {
 	return engine.Prop[StratCase]{
 		ID: "C09", Subject: "strategy/decorated+compound",
 		Gen:   func(t *rapid.T) StratCase { return genStratCase(t, sreg.GenTree(t, names, 2)) },
-		Check: stratCheck,
+		Check: guardedStratCheck,
 	}
 }
 
